@@ -341,8 +341,8 @@ def add_magic_prefix(message: str) -> bytes:
     # need to use varint for big messages
     # note that previously big-endian was used but varint uses little-endian
     # successfully tested with signatures from bitcoin core but keep this in mind
-    message_size = encode_varint(len(message))
     message_encoded = message.encode("utf-8")
+    message_size = encode_varint(len(message_encoded))
     message_magic = magic_prefix + message_size + message_encoded
     return message_magic
 
